@@ -417,3 +417,50 @@ def replay(ctx, mod, path):
             return u.replay(ctx, data)
     print("unit %s not found" % data.get("unit"))
     return 2
+
+
+class TraceUnit(Unit):
+    """code -> model with a custom recorder: a harness sub-command writes an NDJSON file (many traces, each
+    starting with an op=reset line) which TLC validates against <module> (Do(Trace[l]) /\\ ev' = Trace[l])."""
+
+    def __init__(self, sub, module, command, name=None, args=None, thorough_args=None, race=False, timeout=600,
+                 cfgkind="trace", sut=None):
+        self.sub, self.module, self.command = sub, module, command
+        self.name = name or (module + ":" + command)
+        self.args, self.thorough_args = args or [], thorough_args
+        self.race, self.timeout, self.cfgkind = race, timeout, cfgkind
+        self.sut = sut or command
+        self.info = {}
+
+    def summary(self):
+        return json.dumps(self.info)
+
+    def run(self, ctx):
+        tr = os.path.join(ctx.out, self.name.replace(":", "_") + ".ndjson")
+        args = self.thorough_args if (ctx.thorough and self.thorough_args is not None) else self.args
+        p = run_h(ctx, [self.command, "-seed", str(ctx.seed), "-out", tr] + [str(a) for a in args], timeout=self.timeout, race=self.race)
+        self.info["recorder"] = (p.stdout or "").strip()[-300:]
+        if "WARNING: DATA RACE" in (p.stderr or ""):
+            save = os.path.join(ctx.out, self.name.replace(":", "_") + ".race.txt")
+            with open(save, "w") as fh:
+                fh.write(p.stderr)
+            ctx.violation(self.name, "%s:race" % self.sut, "data race reported by the Go race detector (see %s)" % save,
+                          {"kind": "race", "report": p.stderr[-6000:]})
+        elif p.returncode != 0:
+            raise Inconclusive("recorder %s died: %s" % (self.command, (p.stderr or p.stdout)[-2000:]))
+        validate_file(ctx, self, ctx.spec(self.sub), self.module, tr, cfgkind=self.cfgkind, timeout=self.timeout)
+
+    def replay(self, ctx, data):
+        if data.get("kind") == "trace":
+            tr = os.path.join(ctx.out, "replay.ndjson")
+            with open(tr, "w") as fh:
+                for l in data["trace"]:
+                    fh.write(json.dumps(l) + "\n")
+            v = flows.validate(ctx.spec(self.sub), self.module, tr, cfgkind=self.cfgkind)
+            if v["accepted"]:
+                print("trace accepted by", self.module)
+                return 0
+            print("trace rejected at line %s: recorded %s, model %s" % (v["offending_index"], json.dumps(v["offending"]), json.dumps(v["expected"])))
+            return 1
+        print(data.get("report", ""))
+        return 1
